@@ -374,7 +374,7 @@ def histories(draw, tier="quick", margined_bias=False, max_ops=40, near_close=Fa
     kinds = ["umargin", "umargin", "umargin", "es", "zn", "nk", "uspot", "etf"] if margined_bias else None
     if wide:
         specs = draw(contract_specs(dyadic=dyadic, kinds=kinds, min_n=5, max_n=12, wide=True))
-        max_ops = max(max_ops, 150)
+        max_ops = max(max_ops, 150) if max_ops >= 40 else max_ops       # (short histories stay short: C03 only widens the account)
     else:
         specs = draw(contract_specs(dyadic=dyadic, kinds=kinds, min_n=2 if margined_bias else 1))
     n = len(specs)
@@ -404,7 +404,7 @@ def histories(draw, tier="quick", margined_bias=False, max_ops=40, near_close=Fa
             st.tuples(st.just("V"), st.sampled_from(["nlv", "liq", "notional", "weights", "context"])),
             rebalance_ops(n),
         )
-    ops = draw(st.lists(op, min_size=40 if wide else 1, max_size=max_ops))
+    ops = draw(st.lists(op, min_size=40 if (wide and max_ops >= 150) else 1, max_size=max_ops))
     if not dyadic and draw(st.integers(0, 2)) == 0:
         # motif: open, move the quote, then add to / flip the same position under a (usually positive) spread
         ci = draw(st.integers(0, n - 1))
